@@ -650,6 +650,35 @@ void reb_simulation_init(struct reb_simulation* r){
 }
 
 
+// The server thread must not serialize the simulation while the integration thread modifies it.
+static void reb_server_mutex_lock(struct reb_simulation* const r){
+#ifdef SERVER
+    if (r->server_data){
+        while (r->server_data->need_copy == 1){
+            usleep(10);
+        }
+#ifdef _WIN32
+        WaitForSingleObject(r->server_data->mutex, INFINITE);
+#else // _WIN32
+        pthread_mutex_lock(&(r->server_data->mutex)); 
+#endif // _WIN32
+        r->server_data->mutex_locked_by_integrate = 1;
+    }
+#endif //SERVER
+}
+static void reb_server_mutex_unlock(struct reb_simulation* const r){
+#ifdef SERVER
+    if (r->server_data){
+#ifdef _WIN32
+        ReleaseMutex(r->server_data->mutex);
+#else // _WIN32
+        pthread_mutex_unlock(&(r->server_data->mutex));
+#endif // _WIN32
+        r->server_data->mutex_locked_by_integrate = 0;
+    }
+#endif //SERVER
+}
+
 int reb_check_exit(struct reb_simulation* const r, const double tmax, double* last_full_dt){
     if(r->status <= REB_STATUS_SINGLE_STEP){
         if(r->status == REB_STATUS_SINGLE_STEP){
@@ -690,16 +719,20 @@ int reb_check_exit(struct reb_simulation* const r, const double tmax, double* la
                         r->status = REB_STATUS_SUCCESS;
                     }else{
                         // not there yet, do another step.
+                        reb_server_mutex_lock(r);
                         reb_simulation_synchronize(r);
                         r->dt = tmax-r->t;
+                        reb_server_mutex_unlock(r);
                     }
                 }else{
                     r->status = REB_STATUS_LAST_STEP; // Do one small step, then exit.
+                    reb_server_mutex_lock(r);
                     reb_simulation_synchronize(r);
                     if (r->dt_last_done!=0.){   // If first timestep is also last, do not use dt_last_done (which would be 0.)
                         *last_full_dt = r->dt_last_done; // store last full dt before decreasing the timestep to match finish time
                     }
                     r->dt = tmax-r->t;
+                    reb_server_mutex_unlock(r);
                 }
             }else{
                 if (r->status == REB_STATUS_LAST_STEP){
@@ -878,35 +911,13 @@ static void* reb_simulation_integrate_raw(void* args){
             usleep(r->usleep);
         }
     }
-#ifdef SERVER
-    if (r->server_data){
-        // The server must not serialize the simulation while it is being synchronized.
-        while (r->server_data->need_copy == 1){
-            usleep(10);
-        }
-#ifdef _WIN32
-        WaitForSingleObject(r->server_data->mutex, INFINITE);
-#else // _WIN32
-        pthread_mutex_lock(&(r->server_data->mutex)); 
-#endif // _WIN32
-        r->server_data->mutex_locked_by_integrate = 1;
-    }
-#endif //SERVER
+    reb_server_mutex_lock(r);
     reb_simulation_synchronize(r);
     if(r->exact_finish_time==1){ // if finish_time = 1, r->dt could have been shrunk, so set to the last full timestep
         r->dt = last_full_dt; 
     }
     if (r->simulationarchive_filename){ reb_simulationarchive_heartbeat(r);}
-#ifdef SERVER
-    if (r->server_data){
-#ifdef _WIN32
-        ReleaseMutex(r->server_data->mutex);
-#else // _WIN32
-        pthread_mutex_unlock(&(r->server_data->mutex));
-#endif // _WIN32
-        r->server_data->mutex_locked_by_integrate = 0;
-    }
-#endif //SERVER
+    reb_server_mutex_unlock(r);
 
     return NULL;
 }
